@@ -181,6 +181,35 @@ def rare_bucket_case(rng):
             "Xdev": None, "ydev": None, "min_freq_mod": None}
 
 
+def float_tie_case(rng):
+    m = rng.randint(3, 5)
+    vals = [float(i) for i in range(m)] if rng.random() < 0.6 else ["a", "b", "c", "d", "e"][:m]
+    pools = [[0.1, 0.3, 0.4, 0.2], [0.7, 0.1, 0.2], [0.3, 0.3, 0.6, 0.2, 0.1]]
+    col, y = [], []
+    j = rng.randrange(m - 1)
+    for i, v in enumerate(vals):
+        k = rng.randint(12, 30)
+        if i == j + 1:
+            # same mean as modality j (both average the pool exactly), different multiset order/size
+            pool = base_pool
+            ys = [pool[t % len(pool)] for t in range(len(pool) * rng.randint(3, 6))]
+            rng.shuffle(ys)
+        else:
+            base_pool = rng.choice(pools)
+            ys = [base_pool[t % len(base_pool)] for t in range(len(base_pool) * rng.randint(3, 6))]
+            if i != j:
+                ys = [v_ + i for v_ in ys]
+        col += [v] * len(ys)
+        y += ys
+    perm = list(range(len(col)))
+    rng.shuffle(perm)
+    col, y = [col[t] for t in perm], [y[t] for t in perm]
+    return {"carver": "continuous", "sort_by": "kruskal", "ftype": "quant" if isinstance(vals[0], float) else "categ",
+            "min_freq": 0.05, "max_n_mod": rng.randint(2, 5), "dropna": True, "output_dtype": "float",
+            "X": encs(col), "y": y, "kind": "float_ties", "order": None, "Xdev": None, "ydev": None,
+            "min_freq_mod": None, "no_model": True}
+
+
 def partition(labels):
     groups = {}
     for i, l in enumerate(labels):
@@ -208,10 +237,17 @@ class C11(Prop):
         cases = []
         for k in range(n):
             c = gen_case(rng, kind=rng.choice(["plain", "plain", "tied_rates", "dev", "boundary"]))
-            if k % 4 == 0:
+            if k % 5 == 0:
                 c = tie_case(rng)
-            elif k % 4 == 1:
+            elif k % 5 == 1:
                 c = rare_bucket_case(rng)
+            elif k % 5 == 2:
+                # U-shaped / symmetric target profile (equal rates in non-adjacent modalities)
+                c = gen_case(rng, kind="sym")
+            elif k % 5 == 3:
+                # continuous target with non-dyadic values and exactly tied group means: sums depend on
+                # the order of summation (the model is not consulted for these cases)
+                c = float_tie_case(rng)
             c["variants"] = variants(c, rng)
             cases.append(c)
         return cases
@@ -220,7 +256,7 @@ class C11(Prop):
         return self.generate(rng, "quick")[:40]
 
     def run_impl(self, case):
-        base = run_fit(case)
+        base = {"fit": "n/a"} if case.get("no_model") else run_fit(case)
         if "skip" in base:
             return base
         ident = {"name": "identity", "perm": None, "index": None}
